@@ -25,6 +25,14 @@ PROPS = {
         "assumptions": ["each checker's diagnostics for one code do not depend on which other codes are enabled (validated by the correspondence run: prediction from the all-enabled run)"],
         "technique": "T-exec table + decide +kernel bridge + clause theorems + correspondence run",
     },
+    "C21": {
+        "harness": "vh-diag",
+        "level_text": "Kernel-checked theorems: translate_range (+ the 0:0 fallback) yields, for every text and every byte range start<=end (in the text or not, on char boundaries or not), an LSP range with start<=end and both ends inside the document, and is position-preserving and injective on char-boundary ranges (via the C22 round trip); the parse-error loop of SyntaxErrorChecker is complete (every gated parse error appears with its code, message, location), sound, injective and duplicate-free for all error lists. The model's list for the real parse errors of each generated file is compared with what diagnose_file emits (each exactly once) every run; the whole statement (ranges in document, start<=end, known code, severity, no placeholders, no exact duplicates, every parse error present) is evaluated on the real output of all checkers independently. Partial: the byte ranges the other ~40 checkers compute are not modelled (oracle only).",
+        "level_note": "Trusted: Lean kernel, harness/serialisers, the correspondence run as the tie; LineIndex is the C22/C23 model (its own tie). Not modelled: range computation inside the individual checkers, message rendering (rust-i18n) - both covered by the oracle only.",
+        "trusted_base": DIAG_TB,
+        "assumptions": ["parse-error ranges are char-boundary ranges of the text (ErrOK; checked on every generated input)", "texts shorter than 2^32 bytes"],
+        "technique": "Lean 4 theorems over the Text/Diag models + correspondence run + statement-level oracle on all checkers' output",
+    },
 }
 
 HOOK_COMMITS = ["e3c6daf verif hook: expose the diagnostic enable/severity decision functions (feature verif)"]
